@@ -185,6 +185,66 @@ theorem ilookup_append (m : IMap) (k v x : Nat) :
     · simp [h]
     · simp [h, ih]
 
+/-- keys of a Go map are unique: `madd` never duplicates a key -/
+theorem mem_keys_of_lookup {m : NMap} {k : Nat} (h : (mlookup m k).isSome) : k ∈ m.map (·.1) := by
+  induction m with
+  | nil => simp [mlookup_nil] at h
+  | cons p m ih =>
+    obtain ⟨k', s⟩ := p
+    rw [mlookup_cons] at h
+    by_cases e : k' = k
+    · simp [e]
+    · rw [if_neg e] at h; simp [ih h]
+
+theorem keys_madd (m : NMap) (k v : Nat) :
+    (madd m k v).map (·.1) = if k ∈ m.map (·.1) then m.map (·.1) else m.map (·.1) ++ [k] := by
+  induction m with
+  | nil => simp [madd_nil]
+  | cons p m ih =>
+    obtain ⟨k', s⟩ := p
+    rw [madd_cons]
+    by_cases e : k' = k
+    · subst e; simp
+    · rw [if_neg e, List.map_cons, ih]
+      have : ¬ k = k' := fun h => e h.symm
+      by_cases hm : k ∈ m.map (·.1)
+      · simp [hm, this]
+      · simp [hm, this]
+
+theorem nodup_keys_madd {m : NMap} (h : (m.map (·.1)).Nodup) (k v : Nat) : ((madd m k v).map (·.1)).Nodup := by
+  rw [keys_madd]
+  split
+  · exact h
+  · rename_i hk
+    rw [List.nodup_append]
+    exact ⟨h, by simp, by intro a ha b hb; simp at hb; subst hb; intro e; subst e; exact hk ha⟩
+
+theorem mget_of_mem {m : NMap} (h : (m.map (·.1)).Nodup) {k : Nat} {s : List Nat} (hm : (k, s) ∈ m) : mget m k = s := by
+  induction m with
+  | nil => cases hm
+  | cons p m ih =>
+    obtain ⟨k', s'⟩ := p
+    rw [List.map_cons, List.nodup_cons] at h
+    rw [mget_cons]
+    rcases List.mem_cons.mp hm with e | hm'
+    · cases e; simp
+    · have : ¬ k' = k := by
+        intro e; subst e
+        exact h.1 (List.mem_map.mpr ⟨(k', s), hm', rfl⟩)
+      rw [if_neg this]; exact ih h.2 hm'
+
+theorem mem_of_mem_mget {m : NMap} {k y : Nat} (h : y ∈ mget m k) : ∃ s, (k, s) ∈ m ∧ y ∈ s := by
+  induction m with
+  | nil => simp [mget_nil] at h
+  | cons p m ih =>
+    obtain ⟨k', s'⟩ := p
+    rw [mget_cons] at h
+    by_cases e : k' = k
+    · rw [if_pos e] at h; subst e; exact ⟨s', by simp, h⟩
+    · rw [if_neg e] at h
+      obtain ⟨s, hs, hy⟩ := ih h
+      exact ⟨s, List.mem_cons_of_mem _ hs, hy⟩
+
 /-! ### the spec graph -/
 
 /-- an edge `s → t` exists in the list -/
@@ -281,8 +341,10 @@ structure AdjMap.Rel (a : AdjMap) (g : G) : Prop where
   keysIn : ∀ k, (mlookup a.inbound k).isSome → k ∈ a.nodes
   ascOut : ∀ v, Asc (mget a.outbound v)
   ascIn : ∀ v, Asc (mget a.inbound v)
+  keysNodup : (a.outbound.map (·.1)).Nodup
 
 theorem AdjMap.rel_empty : AdjMap.Rel {} {} where
+  keysNodup := List.nodup_nil
   ascOut := by intro v; rw [mget_nil]; exact asc_nil
   ascIn := by intro v; rw [mget_nil]; exact asc_nil
   out := by intro v y; simp [mget_nil, HasEdge]
@@ -303,7 +365,7 @@ theorem AdjMap.rel_step {a : AdjMap} {g : G} (r : a.Rel g) (o : Op) : (a.step o)
             asc := asc_sinsert r.asc,
             keysOut := fun k h => mem_sinsert.mpr (Or.inr (r.keysOut k h)),
             keysIn := fun k h => mem_sinsert.mpr (Or.inr (r.keysIn k h)),
-            ascOut := r.ascOut, ascIn := r.ascIn }
+            ascOut := r.ascOut, ascIn := r.ascIn, keysNodup := r.keysNodup }
   | edge id s e =>
     show (a.addEdge s e).Rel _
     rw [G.step_edge]
@@ -316,7 +378,8 @@ theorem AdjMap.rel_step {a : AdjMap} {g : G} (r : a.Rel g) (o : Op) : (a.step o)
              ascIn := fun v => by
                simp only [mget_madd]; split
                · exact asc_sinsert (r.ascIn _)
-               · exact r.ascIn v }
+               · exact r.ascIn v,
+             keysNodup := nodup_keys_madd r.keysNodup s e }
     · intro v y
       simp only [mem_mget_madd, hasEdge_append_single, r.out v y]
       constructor <;> (rintro (h | h) <;> simp [h])
